@@ -97,17 +97,89 @@ def part_plain(ctx, only=None):
         chk.extra[gname + '_group_ops_plain_paths'] = D.ops
 
 
+def native_differential(ctx):
+    """supplementary oracle and replay target: every scalar-multiplication path of the native build on special bases -- the identity,
+    the generator, a subgroup point, a curve point outside the subgroup -- and structured scalars (0, 1, single bits at word and
+    32-bit-chunk boundaries, r-1, r, r+1, 2^255-1, and for the plain / table paths 2^255 and 2^256-1), against [k]P computed with the
+    reference curve arithmetic.  It runs even when the symbolic part cannot encode the code."""
+    import random
+    from mirsym import load
+    chk = ctx.chk
+    rnd = random.Random(ctx.seed * 7 + 2)
+    q, r = ref.Q, ref.R_ORDER
+    n = load.Native('release')
+    try:
+        g1 = n.run(['g1_mul 1', 'g1_mul %x' % rnd.randrange(2, r), 'g2_mul 1', 'g2_mul %x' % rnd.randrange(2, r)])
+        P1 = [tuple(int(t, 16) for t in g1[0].split()), tuple(int(t, 16) for t in g1[1].split())]
+        f2pt = lambda o: ((int(o.split()[0], 16), int(o.split()[1], 16)), (int(o.split()[2], 16), int(o.split()[3], 16)))
+        P2 = [f2pt(g1[2]), f2pt(g1[3])]
+        # a curve point outside the subgroup (plain paths must still compute [k]P): the point of order 3 on E, and h2-torsion-laden point on E'
+        out1 = (0, 2)
+        x = (rnd.randrange(q), rnd.randrange(q))
+        while ref.f2_sqrt(ref.f2_add(ref.f2_mul(ref.f2_sqr(x), x), (4, 4))) is None:
+            x = (rnd.randrange(q), rnd.randrange(q))
+        out2 = (x, ref.f2_sqrt(ref.f2_add(ref.f2_mul(ref.f2_sqr(x), x), (4, 4))))
+        ks = [0, 1, 2, (1 << 32) - 1, 1 << 32, (1 << 64) - 1, 1 << 64, (1 << 64) + 1, 1 << 96, 1 << 128, 1 << 192, (1 << 224) + 1, r - 1, r, r + 1, (1 << 255) - 1, 1 << 255, (1 << 256) - 1,
+              rnd.randrange(1 << 255)]
+        if ctx.tier == 'quick':
+            ks = [0, 1, (1 << 64) - 1, 1 << 64, 1 << 128, (1 << 192) + (1 << 32), r - 1, r, (1 << 255) - 1, 1 << 255, (1 << 256) - 1, rnd.randrange(1 << 255)]
+        cases = []
+        for k in ks:
+            cases.append(('G1', 'identity', None, k, 'g1_mulpaths inf - %x' % k))
+            cases.append(('G2', 'identity', None, k, 'g2_mulpaths inf - - - %x' % k))
+            for nm, pt in (('generator', P1[0]), ('subgroup point', P1[1]), ('point outside the subgroup', out1)):
+                cases.append(('G1', nm, pt, k, 'g1_mulpaths %x %x %x' % (pt[0], pt[1], k)))
+            for nm, pt in (('generator', P2[0]), ('point outside the subgroup', out2)):
+                if ctx.tier == 'quick' and nm != 'generator' and k not in (1 << 64, r, (1 << 256) - 1):
+                    continue
+                cases.append(('G2', nm, pt, k, 'g2_mulpaths %x %x %x %x %x' % (pt[0][0], pt[0][1], pt[1][0], pt[1][1], k)))
+        outs = n.run([c[4] for c in cases])
+    finally:
+        n.close()
+    bad = []
+    for (g, nm, pt, k, cmd), o in zip(cases, outs):
+        curve = ref.E1 if g == 'G1' else ref.E2
+        want = curve.smul(k, pt) if pt is not None else None
+        if want is None:
+            wtxt = 'inf'
+        elif g == 'G1':
+            wtxt = '%096x %096x' % want
+        else:
+            wtxt = '%096x %096x %096x %096x' % (want[0][0], want[0][1], want[1][0], want[1][1])
+        for part in o.split(' | '):
+            path, _, val = part.partition('=')
+            if path.startswith('wnaf') and k >= (1 << 255):
+                continue            # wNAF paths are claimed below 2^255 only
+            if val.strip() != wtxt:
+                bad.append((g, path, nm, k, cmd, val.strip(), wtxt))
+    chk.extra['native_differential'] = {'cases': len(cases), 'paths_per_case': 6, 'disagreements': len(bad),
+                                        'role': 'supplementary oracle / replay target (special bases x structured scalars); the deciding method is the solver run'}
+    seen = set()
+    for (g, path, nm, k, cmd, got, wtxt) in bad:
+        key = 'scalar-mul-native:%s:%s:%s' % (g, path, nm)
+        if key in seen:
+            continue
+        seen.add(key)
+        ctx.violation(key, '%s %s of the %s by k = %#x differs from [k]P: got %s, want %s' % (g, path, nm, k, got[:40], wtxt[:40]),
+                      {'cmd': cmd, 'path': path, 'base': nm, 'k': hex(k), 'got': got, 'expected': wtxt, 'profile': 'release'})
+
+
 def run(ctx):
     chk = ctx.chk
     ctx.explanation = ('symbolic execution of the scalar-multiplication MIR in the exponent domain with bit-vector scalars: the result '
                        'exponent is compared with k by z3 (QF_BV) for all 2^256 scalars; wNAF recoding/evaluation by inductive steps '
                        'of the real loop bodies; context plumbing in EUF')
     only = getattr(ctx, 'only', None)
-    if not only or 'plain' in only:
-        part_plain(ctx)
-    if not only or 'wnaf' in only:
-        from . import c02_wnaf
-        c02_wnaf.run_part(ctx)
+    try:
+        if not only or 'plain' in only:
+            part_plain(ctx)
+        if not only or 'wnaf' in only:
+            from . import c02_wnaf
+            c02_wnaf.run_part(ctx)
+    except Inconclusive as e_:
+        ctx.inconclusive('encoder: %s' % e_)
+    if not only or 'native' in only:
+        native_differential(ctx)
     chk.assumptions += ['double / add_assign / add_assign_mixed / negate / conversions of G1, G2 act as the abelian group law (C01)',
                         'FrRepr limb operations are exact 256-bit integer operations (C08 checks them bit-precisely; here their real MIR is executed)']
     chk.trusted += ['rustc MIR printer', 'mirsym', 'z3', 'leaf model of ff::BitIterator (MSB-first over limbs)']
